@@ -28,7 +28,7 @@ h_group14(void)
 	__CPROVER_assert(ndigits == 512, "RFC 3526 text has 2048 bits");
 	/* every byte of the constant equals the corresponding byte of the RFC's number */
 	for (i = 0; i < 256; i++)
-		__CPROVER_assert(crypto_dh_group14[i] == spec_be256_byte(p, i), "C10: crypto_dh_group14 equals the RFC 3526 group-14 prime");
+		__CPROVER_assert(crypto_dh_group14[i] == (uint8_t)((p >> (8 * (255 - i))) & 0xff), "C10: crypto_dh_group14 equals the RFC 3526 group-14 prime");
 	__CPROVER_assert(spec_be_val(crypto_dh_group14, 256) == p, "C10: value of crypto_dh_group14 equals the RFC 3526 prime");
 	VCOVER(crypto_dh_group14[255] == 0xff && crypto_dh_group14[8] == 0xc9);
 }
